@@ -81,6 +81,11 @@ func nearMisses(name string) []string {
 	add("x" + name)
 	add(strings.ToUpper(name))
 	add("")
+	for _, la := range gen.LookAlikes(name) {
+		if len(la) < 4000 { // (keeps the registration list small for the very long names of TestEveryLength)
+			add(la)
+		}
+	}
 	return out
 }
 
@@ -267,6 +272,34 @@ func TestDrawnNames(t *testing.T) {
 		if len(req2) != len(req) {
 			rt.Fail(t, "C20/size-law", "names of %d and %d bytes both need %d blocks but give requests of %d and %d bytes", n, n2, blocks(n), len(req), len(req2))
 			return
+		}
+		// the same law for a client that was given the name key in ANOTHER published configuration (KDF / AEAD ids other than
+		// the issuer's default; same KEM and public key): the buckets are 32 bytes whatever the suite. Only the client side is
+		// looked at - sizes of requests for the name, a name with the same block count, and the name extended by one block.
+		if rapid.Bool().Draw(t, "otherNameKeyConfiguration") {
+			nk := append([]byte{}, iss.NameKey().Marshal()...)
+			kdf, aead := gen.Pick(t, []byte{1, 2, 3}, "kdf"), gen.Pick(t, []byte{1, 2, 3}, "aead")
+			nk[36], nk[38] = kdf, aead
+			alt, err := type3.UnmarshalEncapKey(nk)
+			if err != nil {
+				s.Class("other-name-key-configuration-refused")
+			} else {
+				size := func(origin string) int {
+					st, err := type3.NewRateLimitedClientFromSecret(w.secret).CreateTokenRequest(w.chal, w.nonce, w.blind, iss.TokenKeyID(), iss.TokenKey(), origin, alt)
+					if err != nil {
+						return -1
+					}
+					return len(st.Request().Marshal())
+				}
+				a1, a2, a3 := size(name), size(name2), size(name+strings.Repeat("z", 32))
+				if a1 > 0 && a2 > 0 && a3 > 0 {
+					s.Class(fmt.Sprintf("other-name-key-configuration-kdf%d-aead%d", kdf, aead))
+					if a1 != a2 || a3-a1 != 32*(blocks(n+32)-blocks(n)) { // (the empty name already takes one block)
+						rt.Fail(t, "C20/size-law", "client configured with the name key under KDF id %d / AEAD id %d: names of %d and %d bytes (both %d blocks) give requests of %d and %d bytes; one more 32-byte block gives %d (expected equal, and +32)", kdf, aead, n, n2, blocks(n), a1, a2, a3)
+						return
+					}
+				}
+			}
 		}
 		// near-misses registered, the name requested
 		near := nearMisses(name)
